@@ -65,6 +65,17 @@ Theorem C03_encoder_capacity : forall env fuel t v b b',
   (length (bb b') <= 1023)%nat /\ (length (br b') <= 4)%nat.
 Proof. exact enc_capacity. Qed.
 
+(** A cell given as a value is placed in the reference as it is (no copy of its
+    bits into a fresh cell), and the references of an [Any] are appended as they
+    are: exotic cells keep their type, level mask and hash. *)
+Theorem C03_cell_passthrough : forall env fuel c b b',
+  enc env (S fuel) TCellRef (VCell c) b = Ok b' -> bb b' = bb b /\ br b' = br b ++ [c].
+Proof. exact cell_passthrough. Qed.
+
+Theorem C03_any_refs_passthrough : forall env fuel l r b b',
+  enc env (S fuel) TAny (VAny l r) b = Ok b' -> bb b' = bb b ++ l /\ br b' = br b ++ r.
+Proof. exact any_refs_passthrough. Qed.
+
 (** Primitive laws, all widths. *)
 Theorem C03_uint_law : forall w n tb,
   (n < 2 ^ N.of_nat w)%N ->
